@@ -37,6 +37,7 @@ struct TrackAlloc {
     T* allocate( size_t n )
     {
         T* p = static_cast<T*>( ::operator new( n * sizeof( T )));
+        for ( size_t i = 0; i < n; ++i ) cds_verif::hb_forget( p + i );      // fresh memory: whatever lived at this address before is history
         g_heap.live[p] = n; ++g_heap.news;
         return p;
     }
@@ -46,6 +47,7 @@ struct TrackAlloc {
         if ( it == g_heap.live.end()) { g_heap.fail( "C24:bad-free", "the pool gave its allocator a pointer that is not a live allocation (double free, or an object of the preallocated block)" ); return; }
         if ( it->second != n ) g_heap.fail( "C24:bad-free", "the pool frees an allocation with a different element count" );
         g_heap.live.erase( it ); ++g_heap.frees;
+        for ( size_t i = 0; i < n; ++i ) cds_verif::hb_forget( p + i );
         if ( g_heap.names ) g_heap.names->erase( p );
         ::operator delete( p );
     }
